@@ -8,6 +8,7 @@ package lnwallet
 // only performs actions an honest peer performs.
 
 import (
+	"github.com/btcsuite/btcwallet/walletdb"
 	"bytes"
 	"context"
 	"crypto/sha256"
@@ -225,6 +226,13 @@ type verifE1 struct {
 	everLocked                                                    int
 
 	fwdPkgs [2][]verifFwdPkgRec // forwarding packages returned by ReceiveRevocation
+	// addRefs[i][id]: where party i's forwarding packages hold the incoming
+	// add with that HTLC id (the link passes this as the SourceRef of its
+	// settle/fail so that the add is acked atomically with the signature)
+	addRefs [2]map[uint64]channeldb.AddRef
+	// midCommitForks: fork + reload after EVERY committed write transaction
+	midCommitForks bool
+	noSourceRefs   bool
 
 	capacityMsat lnwire.MilliSatoshi
 	anchorsSat   int64
@@ -286,8 +294,32 @@ func verifE1Keys(seedByte byte, base []byte) []*btcec.PrivateKey {
 	return keys
 }
 
+// verifE1DB wraps the bolt backend of one party: after every committed write
+// transaction hook (if set) runs, i.e. at every instant at which a crash
+// would leave a different database behind (C02 crash points between the
+// durable writes of ONE handler).
+type verifE1DB struct {
+	kvdb.Backend
+	hook    func()
+	commits int64
+	inHook  bool
+}
+
+func (d *verifE1DB) Update(f func(tx walletdb.ReadWriteTx) error, reset func()) error {
+	err := d.Backend.Update(f, reset)
+	if err == nil {
+		d.commits++
+		if d.hook != nil && !d.inHook {
+			d.inHook = true
+			d.hook()
+			d.inHook = false
+		}
+	}
+	return err
+}
+
 func verifOpenDB(dir string, dbMods ...channeldb.OptionModifier) (*channeldb.DB, kvdb.Backend, error) {
-	backend, err := kvdb.GetBoltBackend(&kvdb.BoltBackendConfig{
+	bolt, err := kvdb.GetBoltBackend(&kvdb.BoltBackendConfig{
 		DBPath:            dir,
 		DBFileName:        "channel.db",
 		NoFreelistSync:    true,
@@ -298,6 +330,7 @@ func verifOpenDB(dir string, dbMods ...channeldb.OptionModifier) (*channeldb.DB,
 	if err != nil {
 		return nil, nil, err
 	}
+	backend := &verifE1DB{Backend: bolt}
 	db, err := channeldb.CreateWithBackend(backend, dbMods...)
 	if err != nil {
 		backend.Close()
@@ -853,21 +886,28 @@ func (e *verifE1) actResolve(h *verifE1Htlc) bool {
 		err  error
 		kind string
 	)
+	// As the link does, name the forwarding-package slot of the add being
+	// answered (known once the add was locked in by a revocation).
+	var srcRef *channeldb.AddRef
+	if ref, ok := e.addRefs[recvIdx][h.ID]; ok && !e.noSourceRefs {
+		r := ref
+		srcRef = &r
+	}
 	switch h.Fate {
 	case verifFateSettle:
-		err = p.ch.SettleHTLC(h.Preimage, h.ID, nil, nil, nil)
+		err = p.ch.SettleHTLC(h.Preimage, h.ID, srcRef, nil, nil)
 		msg = &lnwire.UpdateFulfillHTLC{ChanID: e.chanID, ID: h.ID, PaymentPreimage: h.Preimage}
 		kind = "settle"
 		e.nSettles++
 	case verifFateFail:
 		reason := []byte("verif-fail-reason")
-		err = p.ch.FailHTLC(h.ID, reason, nil, nil, nil)
+		err = p.ch.FailHTLC(h.ID, reason, srcRef, nil, nil)
 		msg = &lnwire.UpdateFailHTLC{ChanID: e.chanID, ID: h.ID, Reason: reason}
 		kind = "fail"
 		e.nFails++
 	case verifFateMalformed:
 		sha := sha256.Sum256(verifOnion[:])
-		err = p.ch.MalformedFailHTLC(h.ID, lnwire.CodeInvalidOnionKey, sha, nil)
+		err = p.ch.MalformedFailHTLC(h.ID, lnwire.CodeInvalidOnionKey, sha, srcRef)
 		msg = &lnwire.UpdateFailMalformedHTLC{ChanID: e.chanID, ID: h.ID,
 			ShaOnionBlob: sha, FailureCode: lnwire.CodeInvalidOnionKey}
 		kind = "malformed"
@@ -1063,6 +1103,14 @@ func (e *verifE1) actDeliver(from int, crashAfterRecv bool) (needRestart bool) {
 		if fwdPkg != nil {
 			e.fwdPkgs[to] = append(e.fwdPkgs[to], verifFwdPkgRec{Height: fwdPkg.Height,
 				Adds: len(fwdPkg.Adds), SettleFails: len(fwdPkg.SettleFails)})
+			if e.addRefs[to] == nil {
+				e.addRefs[to] = map[uint64]channeldb.AddRef{}
+			}
+			for idx, lu := range fwdPkg.Adds {
+				if add, ok := lu.UpdateMsg.(*lnwire.UpdateAddHTLC); ok {
+					e.addRefs[to][add.ID] = channeldb.AddRef{Height: fwdPkg.Height, Index: uint16(idx)}
+				}
+			}
 		}
 		if e.lastRev[from] != nil {
 			e.lastRev[from].Processed = true
